@@ -88,6 +88,10 @@ const IDIOMS: &[(&str, &str)] = &[
         "tunnel_onwards",
         "=== k@ ===\n-> pass@ ->\nUnreached or reached @.\n-> NEXT\n=== pass@ ===\nPassing @.\n{once@ == 0:\n    ~ once@ = 1\n    ->-> fin@\n}\n->->\n=== fin@ ===\nOnwards @.\n-> NEXT\nGLOB VAR once@ = 0\n",
     ),
+    (
+        "list_ties_and_random",
+        "=== k@ ===\n~ pick@ = LIST_RANDOM(pool@)\nDrew {pick@} of {pool@}: {LIST_ALL(pick@)}.\n~ pick@ = LIST_MIN(pool@)\nMin {pick@}: {LIST_ALL(pick@)} max {LIST_MAX(pool@)}: {LIST_ALL(LIST_MAX(pool@))}.\n~ pool@ -= pick@\nRest {pool@} {LIST_ALL(LIST_RANDOM(pool@))} {A@(1)} {B@(3)}.\n-> NEXT\nGLOB LIST A@ = x, y, w\nGLOB LIST B@ = x, z, w\nGLOB VAR pool@ = (A@.x, B@.x, A@.w, B@.w, B@.z)\nGLOB VAR pick@ = ()\n",
+    ),
 ];
 
 pub fn idiom_count() -> usize {
